@@ -13,7 +13,7 @@ from .c04 import make_interp, install_rules, FUNCS
 from .c02 import SLOT, KINDS, MAXY, find_if
 
 LEVEL = 'other'
-TECHNIQUE = 'dimensional analysis as scaling covariance: every solver kernel (ODE matrices, starting vectors, interface maps, boundary values, collapse, Love extraction, re-dimensionalisation factors) is extracted symbolically and checked to transform with its physical dimension under arbitrary changes of the kg, m, s units (polynomial identity testing); round trip of the in-place non-dimensionalisation; writer/reader agreement of the solution layout; reciprocity (Saito-Molodensky) by conservation of the bilinear concomitant of the ODE classes, its continuity under the interface conditions and its surface value under the solver\'s own tidal and loading boundary vectors; re-dimensionalisation call arguments recorded from the whole-function symbolic execution of the driver'
+TECHNIQUE = 'dimensional analysis as scaling covariance: every solver kernel (ODE matrices, starting vectors, interface maps, boundary values, collapse, Love extraction, re-dimensionalisation factors) is extracted symbolically and checked to transform with its physical dimension under arbitrary changes of the kg, m, s units (polynomial identity testing); round trip of the in-place non-dimensionalisation; writer/reader agreement of the solution layout; reciprocity (Saito-Molodensky) by conservation of the bilinear concomitant of the ODE classes, its continuity under the interface conditions and its surface value under the solver\'s own tidal and loading boundary vectors; re-dimensionalisation call arguments recorded from the whole-function symbolic execution of the driver; unit inference (exponents of kg, m, s) over the statements of the driver; the conversion helpers run for two planets in one interpreter state (module-level state modelled) against a fresh state'
 LEVEL_TEXT = ('Integrator/grid invariance needs the numerical solution and is not decided. The Saito-Molodensky relation k_load = k_tidal - h_tidal is decided at formula level (R03.5): it holds for the exact solutions of the implemented equations, interface conditions, boundary vectors and Love extraction. Decided as well: dimensional homogeneity of every formula in the solve, which is exactly what makes '
               'the result independent of internal non-dimensionalisation and of an exact rescaling of the planet (lengths x a, moduli x a^2, gravity x a at fixed density and frequency is one subgroup of the unit changes); '
               'non-dimensionalise then re-dimensionalise is the identity on all five arrays and four scalars; the solution-type layout is written and read with the same index polynomial.')
